@@ -50,6 +50,26 @@ def interest_of(name: str, sv: SV, out: Dict[str, object]):
 
 
 def verify_function(e: Engine, qname: str) -> FunctionResult:
+    c0 = e.reg.contracts.get(qname)
+    if c0 is not None and c0.func_params and not getattr(e, "_func_choice", None):
+        # one verification per binding of the function-valued parameters
+        import itertools
+        total = FunctionResult(qname)
+        names = list(c0.func_params)
+        for combo in itertools.product(*[c0.func_params[n] for n in names]):
+            e._func_choice = dict(zip(names, combo))
+            try:
+                r = verify_function(e, qname)
+            finally:
+                e._func_choice = None
+            suffix = "[" + ",".join(f"{k}={v}" for k, v in zip(names, combo)) + "]"
+            for o in r.obligations:
+                o.name = o.name.replace(qname + "/", qname + suffix + "/", 1)
+            total.obligations += r.obligations
+            total.paths += r.paths
+            total.sha256 = r.sha256
+            total.error = total.error or r.error
+        return total
     res = FunctionResult(qname)
     fi = e.repo.funcs.get(qname)
     c = e.reg.contracts.get(qname)
@@ -66,6 +86,7 @@ def verify_function(e: Engine, qname: str) -> FunctionResult:
     e.call_counts = {}
     e.nested_defs = {}
     e.local_imports = {}
+    e.extra_fields = {k: parse_type(v) for k, v in e.reg.extra_fields.items()}
     e.interest = {}
     # stable statement labels for ghost anchors: <StmtType>#<ordinal in source order>
     e.stmt_labels = {}
@@ -98,6 +119,9 @@ def verify_function(e: Engine, qname: str) -> FunctionResult:
             name = p.arg
             if fi.kind == "classmethod" and name == "cls":
                 st.store[name] = SV(Ty("func"), None, tag=("class", fi.cls))
+                continue
+            if getattr(e, "_func_choice", None) and name in e._func_choice:
+                st.store[name] = SV(Ty("func"), None, tag=("builtin", e._func_choice[name]))
                 continue
             ty = param_type(e, fi, c, name, p.annotation)
             if ty is None and name in defaults and isinstance(defaults[name], ast.Name):
